@@ -100,9 +100,9 @@ def _catalog(fl):
     acts = []
     for n in fm.activation.constructors:
         if n in ("First", "Last"):
-            acts += [(n, ()), (n, (2, "num")), (n, (3, 0.0))]
+            acts += [(n, ()), (n, (2, "num")), (n, (10, 0.0))]            # (a rule count of two digits)
         elif n in ("Highest", "Lowest"):
-            acts += [(n, ()), (n, (2,)), (n, (3,))]
+            acts += [(n, ()), (n, (2,)), (n, (12,))]
         elif n == "Threshold":
             acts += [(n, ())] + [(n, (c.value, "num")) for c in fl.Threshold.Comparator]
         else:
